@@ -1,6 +1,7 @@
 package parties
 
 import (
+	"fmt"
 	"io"
 
 	"github.com/Comcast/gots/v2/packet"
@@ -19,7 +20,8 @@ type SinkPlan struct {
 	ShortN   int    `json:"short_n,omitempty"`
 	CloseErr bool   `json:"close_err,omitempty"`
 	// As: the error VALUE a failing write returns: "" = a distinct injected error,
-	// "eof" = io.EOF, "ueof" = io.ErrUnexpectedEOF (a sink is free to fail with those)
+	// "eof" = io.EOF, "ueof" = io.ErrUnexpectedEOF (a sink is free to fail with those),
+	// "temporary" = an error whose Temporary() method says true
 	As string `json:"as,omitempty"`
 }
 
@@ -75,9 +77,20 @@ func (s *SimSink) errValue(i int) error {
 		return io.EOF
 	case "ueof":
 		return io.ErrUnexpectedEOF
+	case "temporary":
+		return &TemporaryErr{ID: 1000 + i}
 	}
 	return &InjectedErr{ID: 1000 + i}
 }
+
+// TemporaryErr is an injected error that also answers Temporary() == true, the way
+// syscall.EAGAIN, EINTR and many net errors do. A failed packet write is a failed packet
+// write, whatever else the error value says about itself.
+type TemporaryErr struct{ ID int }
+
+func (e *TemporaryErr) Error() string   { return fmt.Sprintf("injected temporary fault #%d", e.ID) }
+func (e *TemporaryErr) Temporary() bool { return true }
+func (e *TemporaryErr) Timeout() bool   { return false }
 
 // SimSinkW is a SimSink whose type ALSO has a raw Write method (like a file sink that
 // embeds *os.File or a bytes.Buffer). An adapter built over it must still go through
